@@ -23,6 +23,7 @@ OPS = {
     "indexed_select_eq": {"op": "indexed_select_eq", "table": "t", "index": "ta", "key": [["i", "3"]], "cols": ["id"]},
     "pk_select": {"op": "pk_select", "table": "w", "key": [["t", "6b3033"]], "cols": ["v"]},
     "columns": {"op": "columns", "table": "t"},
+    "pk_select_alias": {"op": "pk_select", "table": "t", "key": [["i", "7"]], "cols": ["b", "id"]},
     "select_w": {"op": "select", "table": "w", "cols": ["k", "v"]},
     # exit paths
     "err_no_table": {"op": "select", "table": "nosuch", "cols": ["x"]},
@@ -70,7 +71,7 @@ def sched_writer_vs_parked_reader(h, d, layout, rnd, n):
     connection walks its ladder: BEGIN IMMEDIATE ok, COMMIT must be BUSY; after the reader returned COMMIT succeeds"""
     out = []
     positions = [("L",), ("P",), ("C",), ("C", "C"), ("P", "P", "P"), ("C", "P")]
-    opnames = ["select_meta", "select", "indexed_select", "select_w", "select_stop", "panic_cb"]
+    opnames = ["select_meta", "select", "indexed_select", "select_w", "select_stop", "panic_cb", "pk_select_alias", "pk_select", "indexed_select_eq"]
     for i in range(n):
         pos = positions[i % len(positions)]
         opn = opnames[(i // len(positions) + i) % len(opnames)]
@@ -232,6 +233,32 @@ def sched_error_at_lock(h, d, layout):
     return out
 
 
+def sched_second_step_refused(h, d, layout):
+    """the reader's first lock step (pending byte) succeeds and its second (shared range) is refused: the pending byte
+    must be released again on that path too; afterwards a real writer can commit and the handle reads again"""
+    out = []
+    for opn in ("select", "select_rowid", "indexed_select", "pk_select", "columns"):
+        r = lockrun.Runner(h, fresh(d, "step2-%s" % opn), layout)
+        try:
+            r.open("h1")
+            r.start("h1", SEL_META)
+            r.finish("h1")
+            r.foreign_lock("w2")
+            r.start("h1", OPS[opn])
+            r.finish("h1")
+            r.foreign_unlock("w2")
+            r.sql("w1", "BEGIN IMMEDIATE")
+            r.sql("w1", "UPDATE meta SET v = v + 1")
+            r.sql("w1", "COMMIT", commits=True)
+            r.start("h1", SEL_META)
+            r.finish("h1")
+            r.close("h1")
+        finally:
+            r.shutdown()
+        out.append(("step2refused:%s" % opn, r.events, {"op": opn, "variant": "shared range refused after the pending byte was granted"}))
+    return out
+
+
 def sched_growth(h, d, layout):
     """the file grows (another connection commits) after the handle was opened; a later scan reads pages beyond the
     size at open: the lock must be held at every one of those reads too"""
@@ -300,7 +327,7 @@ def run(tier):
     n = 12 if tier == "quick" else 60
     scheds = sched_exit_paths(h, d, "sep") + sched_writer_vs_parked_reader(h, d, "sep", rnd, n) + \
         sched_two_handles(h, d, "sep", rnd, 5 if tier == "quick" else 20) + sched_growth(h, d, "sep") + \
-        sched_nested(h, d, "sep") + sched_error_at_lock(h, d, "sep")
+        sched_nested(h, d, "sep") + sched_error_at_lock(h, d, "sep") + sched_second_step_refused(h, d, "sep")
     errs_seen = [m["errors"] for name, _, m in scheds if "errors" in m]
     v.cov["error_at_lock_outcomes"] = errs_seen
     if not any(e[0] for e in errs_seen):
